@@ -6,7 +6,7 @@ import copy
 
 import numpy as np
 
-from . import ref, seams
+from . import ref, seams, pristine
 from .core import Result, quiet, digest_of
 from .oracle import diff, fingerprint, outcome
 from .simcfg import gen_sim_cfg, simpler_sim_cfgs
@@ -113,7 +113,8 @@ def gen_plan(wl, fr, idx):
     kind = 'group' if wl.random() < 0.22 else 'single'
     clean = wl.random() < 0.4
     interrupts = (not clean) and wl.random() < 0.5
-    plan = {'kind': kind, 'clean': clean, 'faults': {'interrupts': interrupts}}
+    plan = {'kind': kind, 'clean': clean, 'faults': {'interrupts': interrupts},
+            'read_all_columns': wl.random() < 0.6}
     ctor = _gen_ctor(wl)
     plan['ctor'] = ctor
     cur = ref.object_settings(ctor)
@@ -334,6 +335,19 @@ def obj_outcome(fn, *a, arm=None, **k):
             ctl.disarm()
 
 
+def _fresh_fit(settings, sig, fs, f_range):
+    """A freshly constructed object with the given settings, fitted once (runs in a pristine fork)."""
+    from bycycle.objs import Bycycle
+    import warnings
+    warnings.simplefilter('ignore')
+    obj = construct_from_settings(Bycycle, settings)
+    try:
+        obj.fit(sig, fs, f_range)
+        return ('ok', obj.df_features)
+    except Exception as e:
+        return ('raise', type(e).__name__, str(e)[:200])
+
+
 def first_diff_column(a, b):
     try:
         if list(a.columns) != list(b.columns):
@@ -374,7 +388,7 @@ def execute(plan, tape):
     sim = Sim(plan.get('sim') or {'mode': 'fifo'}, tape)
     ctl = seams.Controller(tape, sim)
     interrupts = plan.get('faults', {}).get('interrupts')
-    with quiet(), Installed(sim), seams.activate(ctl):
+    with quiet(), pristine.active(), Installed(sim), seams.activate(ctl):
         if plan['kind'] == 'single':
             _run_single(plan, tape, res, hist, ctl, interrupts)
         else:
@@ -455,6 +469,12 @@ def _run_single(plan, tape, res, hist, ctl, interrupts):
                 _op_load(plan, op, n, obj, model, res, hist)
             elif kind == 'getattr':
                 _op_getattr(op, n, obj, model, res, hist)
+            # invariant: attribute access returns the table's columns - read every column after
+            # every operation that (re)established the table (in a seeded subset of runs, so that
+            # histories without intermediate reads are explored as well)
+            if plan.get('read_all_columns') and kind in ('fit', 'load', 'recompute') \
+                    and res.vclass is None and model.table[0] == 'known':
+                _read_all_columns(n, kind, obj, model, res)
         finally:
             ctl.disarm()
     res.arm_at = None
@@ -493,9 +513,8 @@ def _op_fit(plan, op, n, obj, model, res, hist):
             col = first_diff_column(obj.df_features, expected[1])
     if mismatch:
         # does a freshly constructed object with the current settings agree with the reference?
-        fresh = construct_from_settings(Bycycle, model.s)
-        fo = obj_outcome(fresh.fit, sig.copy(), fs, f_range)
-        fresh_ok = (fo[0] == expected[0]) and (fo[0] != 'ok' or not diff(fresh.df_features, expected[1]))
+        fo = pristine.call('simcheck.c14:_fresh_fit', model.s, sig.copy(), fs, f_range)
+        fresh_ok = (fo[0] == expected[0]) and (fo[0] != 'ok' or not diff(fo[1], expected[1]))
         vclass = 'fit-differs-from-fresh' if fresh_ok else 'model-mismatch'
         res.violate(vclass, '%s:%s' % (method, col), 'op %d (fit): %s' % (n, mismatch))
         return
@@ -576,6 +595,22 @@ def _op_load(plan, op, n, obj, model, res, hist):
     model.table = ('known', pristine)
 
 
+def _read_all_columns(n, kind, obj, model, res):
+    table = model.table[1]
+    for name in table.columns:
+        try:
+            val = getattr(obj, name)
+        except Exception as e:
+            res.violate('getattr-mismatch', 'column', 'after op %d (%s): attribute %r raised %s'
+                        % (n, kind, name, type(e).__name__))
+            return
+        if diff(np.asarray(val), table[name].values):
+            res.violate('getattr-mismatch', 'column',
+                        'after op %d (%s): attribute %r is not the current table column' % (n, kind, name))
+            return
+    res.stats['column_reads_checked'] += len(table.columns)
+
+
 def _op_getattr(op, n, obj, model, res, hist):
     name = op['name']
     if model.table[0] == 'unknown':
@@ -616,7 +651,6 @@ def _build_array(a):
 
 def _run_group(plan, tape, res, hist, ctl, sim):
     from bycycle.objs import BycycleGroup
-    from bycycle.group import compute_features_2d, compute_features_3d
     res.fps = []
     res.methods_fit = set()
     model = Model(plan['ctor'])
@@ -650,15 +684,8 @@ def _run_group(plan, tape, res, hist, ctl, sim):
             axis = (0, 1) if op['axis'] == '01' else op['axis']
             s = ref.live(model.s)
             rs = s.pop('return_samples')
-            func = compute_features_2d if sigs.ndim == 2 else compute_features_3d
-            # reference: the functional group call on fresh copies, n_jobs=1, default schedule
-            saved_mode, saved_faults = sim.mode, sim.faults
-            sim.mode, sim.faults = 'fifo', {}
-            try:
-                expected = outcome(func, sigs.copy(), fs, f_range, compute_features_kwargs=s, axis=axis,
-                                   return_samples=rs, n_jobs=1)
-            finally:
-                sim.mode, sim.faults = saved_mode, saved_faults
+            # reference: the functional group call on fresh copies, n_jobs=1, fifo schedule, pristine fork
+            expected = ref.ref_group(sigs, fs, f_range, s, axis, rs)
             method = model.s['burst_method']
             res.stats['attempt.' + method] += 1
             if expected[0] == 'ok':
@@ -689,6 +716,11 @@ def _run_group(plan, tape, res, hist, ctl, sim):
                 break
             cur = (sigs, expected[1])
             edited_since_fit = False
+            if plan.get('read_all_columns'):
+                bad = _group_columns(obj, expected[1], sigs.ndim == 3)
+                if bad:
+                    res.violate('getattr-mismatch', 'group-column', 'op %d (group fit): %s' % (n, bad))
+                    break
             res.fps.append(fingerprint(expected[1]))
             res.stats['group_fits_checked'] += 1
             res.stats['probe.group_%dd' % sigs.ndim] += 1
@@ -730,6 +762,27 @@ def _run_group(plan, tape, res, hist, ctl, sim):
                 newt = [newt[i * n1:(i + 1) * n1] for i in range(len(tabs))]
             cur = (sigs, newt)
             res.stats['group_recomputes_checked'] += 1
+            if plan.get('read_all_columns'):
+                bad = _group_columns(obj, newt, nested)
+                if bad:
+                    res.violate('getattr-mismatch', 'group-column',
+                                'op %d (group recompute_edges): %s' % (n, bad))
+                    break
+
+
+def _group_columns(obj, tables, nested):
+    """Attribute access on every model returns the columns of that model's current table."""
+    models = [m for row in obj.models for m in row] if nested else list(obj.models)
+    tabs = [t for row in tables for t in row] if nested else list(tables)
+    for k, (m, t) in enumerate(zip(models, tabs)):
+        for name in t.columns:
+            try:
+                val = getattr(m, name)
+            except Exception as e:
+                return 'model %d attribute %r raised %s' % (k, name, type(e).__name__)
+            if diff(np.asarray(val), t[name].values):
+                return 'model %d attribute %r is not the current table column' % (k, name)
+    return None
 
 
 def _mirror(obj, sigs, fs, f_range):
